@@ -6,6 +6,7 @@ import (
 	"context"
 	"fmt"
 	"io"
+	"log"
 	"net"
 	"net/http"
 	"runtime"
@@ -414,10 +415,132 @@ func runC16RawHeader(r *simkit.Run) {
 	}
 }
 
+// runC16Replay: the transport re-sends a request by itself. Request A opens a keep-alive connection; request B (marked
+// replayable with an Idempotency-Key header) goes out on that connection, the handler reads its whole body and then
+// aborts the connection without an answer; net/http's transport then replays B on a fresh connection, rewinding the
+// body through GetBody. The handler that finally answers B must have read exactly the bytes the client was given.
+func runC16Replay(r *simkit.Run) {
+	tp := r.Tape
+	algo := c16Algos[tp.Draw(len(c16Algos))]
+	bodyA := makeBody(tp, "text", tp.Range(1, 3000))
+	bodyB := makeBody(tp, []string{"text", "random", "zeros"}[tp.Draw(3)], []int{1, 900, 5000, 70000}[tp.Draw(4)])
+	r.Sample = map[string]any{"mode": "transport-replay", "client_compression": algo, "body_len": len(bodyB)}
+	r.Logf("replay algo=%q body %d bytes", algo, len(bodyB))
+	r.Count("probe.transport_replay_mode")
+	runtime.GC()
+	runtime.GC()
+	var mu sync.Mutex
+	var hwg sync.WaitGroup
+	calls := map[string]int{}
+	var lastB []byte
+	var lastErr error
+	handler := http.HandlerFunc(func(w http.ResponseWriter, req *http.Request) {
+		hwg.Add(1)
+		defer hwg.Done()
+		id := req.Header.Get("X-Sim-Req")
+		b, err := io.ReadAll(req.Body)
+		mu.Lock()
+		calls[id]++
+		n := calls[id]
+		if id == "B" {
+			lastB, lastErr = b, err
+		}
+		mu.Unlock()
+		if id == "B" && n == 1 {
+			panic(http.ErrAbortHandler) // the connection dies after the body was consumed, before any response byte
+		}
+		if err != nil {
+			http.Error(w, err.Error(), http.StatusBadRequest)
+			return
+		}
+		w.WriteHeader(http.StatusOK)
+	})
+	sc := confighttp.NewDefaultServerConfig()
+	port, _ := nextPortPair()
+	for i := 0; i < 200 && !portsFree(port); i++ {
+		port, _ = nextPortPair()
+	}
+	sc.Endpoint = fmt.Sprintf("127.0.0.1:%d", port)
+	sc.TLSSetting = nil
+	srv, err := sc.ToServer(context.Background(), componenttest.NewNopHost(), componenttest.NewNopTelemetrySettings(), handler)
+	if err != nil {
+		panic(err)
+	}
+	srv.ErrorLog = log.New(io.Discard, "", 0) // the deliberate abort is not news
+	ln, err := sc.ToListener(context.Background())
+	if err != nil {
+		r.Count("probe.infra_socket_unavailable")
+		time.Sleep(200 * time.Millisecond)
+		return
+	}
+	done := make(chan struct{})
+	go func() { _ = srv.Serve(ln); close(done) }()
+	cc := confighttp.NewDefaultClientConfig()
+	cc.Endpoint = "http://" + ln.Addr().String()
+	cc.Compression = configcompression.Type(algo)
+	cc.Timeout = 20 * time.Second
+	client, err := cc.ToClient(context.Background(), componenttest.NewNopHost(), componenttest.NewNopTelemetrySettings())
+	if err != nil {
+		panic(err)
+	}
+	post := func(id string, body []byte) (int, error) {
+		req, err := http.NewRequest(http.MethodPost, cc.Endpoint+"/", bytes.NewReader(body))
+		if err != nil {
+			panic(err)
+		}
+		req.Header.Set("X-Sim-Req", id)
+		req.Header.Set("Idempotency-Key", "sim-"+id)
+		req.Header.Set("Content-Type", "application/octet-stream")
+		resp, err := client.Do(req)
+		if err != nil {
+			return 0, err
+		}
+		_, _ = io.Copy(io.Discard, resp.Body)
+		_ = resp.Body.Close()
+		return resp.StatusCode, nil
+	}
+	stA, errA := post("A", bodyA)
+	simkit.Beat()
+	stB, errB := post("B", bodyB)
+	simkit.Beat()
+	client.CloseIdleConnections()
+	_ = srv.Close()
+	<-done
+	hwg.Wait()
+	r.Events += 2
+	r.Nontrivial = true
+	for _, e := range []error{errA, errB} {
+		if e != nil && (strings.Contains(e.Error(), "cannot assign requested address") || strings.Contains(e.Error(), "address already in use")) {
+			r.Count("probe.infra_socket_unavailable")
+			return
+		}
+	}
+	mu.Lock()
+	nB, got, gerr := calls["B"], lastB, lastErr
+	mu.Unlock()
+	r.Logf("A: status=%d err=%v; B: status=%d err=%v handler calls=%d", stA, errA != nil, stB, errB != nil, nB)
+	if errA != nil || stA != http.StatusOK {
+		return // the opening request did not go through: nothing to replay
+	}
+	if nB < 2 {
+		// the transport did not replay (it is allowed not to): the client sees the aborted connection
+		r.Count("probe.transport_did_not_replay")
+		return
+	}
+	r.Count("probe.transport_replayed")
+	if errB != nil || stB != http.StatusOK || gerr != nil || !bytes.Equal(got, bodyB) {
+		r.Failf("content", "transport-replay/"+algoName(algo), "request replayed by the transport after the connection died: the handler read %d bytes (err=%v), the client was given %d bytes (%s); status %d, client error %v", len(got), gerr, len(bodyB), algoName(algo), stB, sanitize(errB, port))
+	}
+}
+
 func runC16(r *simkit.Run) {
 	tp := r.Tape
 	if tp.Chance(1, 6) {
 		runC16Overlap(r)
+		return
+	}
+	if tp.Chance(1, 12) {
+		runC16Replay(r)
 		return
 	}
 	if tp.Chance(1, 12) {
